@@ -3,6 +3,7 @@ package exec
 import (
 	"fmt"
 	"os"
+	"runtime/debug"
 	"go/token"
 	"go/types"
 	"strings"
@@ -325,7 +326,6 @@ func (e *Exec) visitInstr(fr *frame, instr ssa.Instruction) continuation {
 		if p == nil {
 			e.runtimePanic("invalid memory address or nil pointer dereference")
 		}
-		e.monitorAccess(p, false)
 		fr.env[instr] = &(*p).(Struct)[instr.Field]
 	case *ssa.Field:
 		fr.env[instr] = fr.get(instr.X).(Struct)[instr.Field]
@@ -543,8 +543,15 @@ func (e *Exec) runFrame(fr *frame) {
 		r := recover()
 		switch r.(type) {
 		case targetPanic:
+		case pathEnd, lenientFail, specAbort:
+			panic(r) // not the program's business
 		default:
-			panic(r) // pathEnd, lenientFail or an engine bug: not the program's business
+			// a Go panic inside the interpreter: report where the program was
+			pos := ""
+			if fr.curInstr != nil {
+				pos = fmt.Sprintf(" [at %s in %s: %s]", e.p.Prog.Fset.Position(fr.curInstr.Pos()), fr.fn, fr.curInstr)
+			}
+			panic(pathEnd{endEngineBug, fmt.Sprintf("%v%s\n%s", r, pos, clip(string(debug.Stack()), 2500))})
 		}
 		fr.panicking = true
 		fr.panicv = r
